@@ -538,6 +538,9 @@ func sampleCall(rng *rand.Rand, mode Mode) Call {
 			c.Fault = &Fault{Kind: "drop-query", Arg: []string{"who", "q", "tags", "api_key"}[rng.Intn(4)]}
 		case 12:
 			c.Fault = &Fault{Kind: "flip", Frac: 0, At: rng.Intn(1200)}
+			if rng.Intn(3) == 0 {
+				c.Fault = &Fault{Kind: "lie-length", Arg: []string{"4611686018427387904", "9223372036854775807", "1152921504606846976"}[rng.Intn(3)]}
+			}
 		case 13:
 			c.Fault = &Fault{Kind: []string{"dup", "replay"}[rng.Intn(2)]}
 		}
